@@ -6,6 +6,8 @@ EXPLANATION = ("(b) strategy switches: bounded runtime contracts at the public i
                "with the default model's NLL and gradient.  (a) the custom contraction routine has its own contract groups.")
 ASSUMPTIONS = ["A-LIB: TensorFlow graph tracing / XLA compilation are trusted only through the bounded comparison"]
 
+EXPLANATION += (' The cached_int likelihood is proved equal to the default formula (value incl. clip_log, gradient, Hessian).')
+
 from vt.contracts import iface_amp  # noqa: F401,E402
 from vt.contracts import amp_assembly, einsum_sym, selection_alias  # noqa: F401,E402
 from vt.contracts import derivs  # noqa: F401,E402  (cached_int likelihood == default formula incl. clip_log; gradient / Hessian)
